@@ -3,7 +3,8 @@ from . import core, legacy_common as L
 
 PROP = "C08"
 DRIVER = "drv_legacy"
-LEAN_MODULES = ["MesaModel.Props.C08", "MesaModel.Props.C18Legacy"]
+WATCHDOG = 900  # seconds per scenario: the chained exhaustive scenarios have > 10^4 lines; the shared machine is often overloaded
+LEAN_MODULES = ["MesaModel.Props.C08", "MesaModel.Props.C18Legacy", "MesaModel.Props.C18LegacyExact"]
 THEOREMS = [
     "Mesa.Legacy.C08_views_agree_all_histories",
     "Mesa.Legacy.C08_step_keeps_agreement",
@@ -54,6 +55,12 @@ THEOREMS = [
     "Mesa.Legacy.C18_legacy_step_reject_unchanged",
     "Mesa.Legacy.C18_legacy_rejected_calls_deletable",
     "Mesa.Legacy.C18_legacy_reads_same_after_deletion",
+    "Mesa.Legacy.C18_legacy_rejects_exactly",
+    "Mesa.Legacy.C18_legacy_moveToOneOf_rejects_exactly",
+    "Mesa.Legacy.C18_legacy_place_any_integers",
+    "Mesa.Legacy.C18_legacy_place_outside_deletable",
+    "Mesa.Legacy.C08_place_negative_coordinates_break_agreement",
+    "Mesa.Legacy.C18_legacy_rejected_calls_deletable_any_future",
     "Mesa.Legacy.C18_legacy_net_step_reject_unchanged",
     "Mesa.Legacy.C18_legacy_net_rejects_exactly",
     "Mesa.Legacy.C18_legacy_net_rejected_calls_deletable",
@@ -67,10 +74,10 @@ TRUSTED = [
     "cutoff_empties = 7.953 * num_cells ** 0.384 (float formula; its floor is read from the running grid and sent in the scenario header)",
     "random.Random.shuffle / choice / randrange of CPython 3.12 draw through _randbelow as modelled (Fisher-Yates from the top, choice = seq[_randbelow(len)])",
     "networkx node bookkeeping: G.nodes[v] raises KeyError exactly for a node that is not in the graph; iteration over G is in insertion order (the protocol builds range(n))",
-    "place_agent is only called with in-grid coordinates (C08's quantifier); its negative-index aliasing is not modelled (the read paths' is)",
+    "place_agent with coordinates in the aliasing band -size..-1 is modelled for the call itself only (tie: last mutating call of an outside-quantifier scenario); beyond the band it raises IndexError (modelled, in the quantifier of the widened histories)",
     "CPython list indexing / slicing semantics (modelled: pyIndex, sliceIndices = PySlice_AdjustIndices + range; compared exhaustively on small lists on every run)",
 ]
-ASSUMPTIONS = ["place_agent is called for an unplaced agent at in-grid coordinates (the property's quantifier)",
+ASSUMPTIONS = ["place_agent is called for an unplaced agent at in-grid coordinates (the property's quantifier) or beyond the grid's index range (rejected; widened histories HistOkR)",
                "hex variants: the mutating calls are inherited unchanged from SingleGrid / MultiGrid (checked by running all four classes)"]
 RULE = ("random histories on all four grid classes: sizes 1x1..5x5 (62%), tiny grids that fill up (20%), 6x6..8x8 where move_to_empty samples "
         "(18%); torus on/off; with/without property layers; 1-7 agents; 5-40 (thorough: 60) ops from {place, remove, move (in-grid, near and far "
@@ -161,6 +168,8 @@ def tags(sc, obs):
         if k in ("empties", "exists", "mte") and not built:
             built = True
             yield "branch:empties-first-built-" + ("before-any-mutation" if not any(x.split()[0] in MUT for x in sc.lines[1:sc.lines.index(l)]) else "mid-history")
+        if k == "place" and not (0 <= int(l.split()[2]) < int(w[3]) and 0 <= int(l.split()[3]) < int(w[4])):
+            yield "branch:place-" + ("beyond-grid" if o == "err Index" else "aliased-negative-coordinates(tie only)")
         if k in MUT and built and o == "ok":
             yield "branch:mutation-after-empties-built"
         if k in MUT and not built and o == "ok":
